@@ -46,9 +46,14 @@ theorem DV0.stopping_of_bf {s : St} (h : DV0 s) {b : List Bool} (hb : s.bf = som
   · exact ⟨he, hs⟩
   · rw [hb] at hn; cases hn
 
+theorem stop_doVerify_imp (s : St) (e : Bool) (h : (s.stop e).doVerify = true) : s.doVerify = true := by
+  rcases stop_doVerify_eq s e with h' | h'
+  · rw [h'] at h; exact h
+  · rw [h'.2] at h; cases h
+
 theorem stop_dv' (s : St) (e : Bool) (h : s.doVerify = true → s.errC = true) : DV (s.stop e) := by
   intro hd
-  have he := h (by simpa using hd)
+  have he := h (stop_doVerify_imp s e hd)
   exact ⟨by simpa using he, Or.inl (stop_stopAnn_of_errC s e he)⟩
 
 theorem stop_dv (s : St) (e : Bool) (h : DV s) : DV (s.stop e) := stop_dv' s e (fun hd => (h hd).1)
@@ -65,8 +70,8 @@ theorem hadFresh_dv (m : M) : DV (hadFresh m).1 := by
   unfold hadFresh
   dsimp only
   split
-  · simp only [onSt_fst]; exact DV.of_false (by simp)
-  · next hd => exact DV.of_false (by simpa using hd)
+  · simp only [onSt_fst]; exact DV.of_false (stop_doVerify_false _ _ rfl)
+  · next hd => exact DV.of_false (hadCheck_doVerify_false _ (by simpa using hd))
 
 theorem hadTrust_dv (m : M) (b : List Bool) (h : DV0 m.1) (hb : m.1.bf = some b) : DV (hadTrust m b).1 := by
   unfold hadTrust
@@ -103,10 +108,10 @@ theorem handleAllocationDone_dv (m : M) (ex mi : Bool) (h : DV m.1) : DV (handle
     · simp only [onSt_fst]; exact h0.verifier
 
 theorem allocatorRun_dv (m : M) (h : DV m.1) : DV (allocatorRun m).1 := by
-  unfold allocatorRun
-  dsimp only
+  rw [allocatorRun_eq]
   split
-  · simp only [onSt_fst]; exact stop_dv' _ _ (fun hd => (h hd).1)
+  · unfold allocFail
+    simp only [onSt_fst]; exact stop_dv' _ _ (fun hd => by simpa using (h (by simpa using hd)).1)
   · exact handleAllocationDone_dv _ _ _ (by dv_frame h)
 
 /-- the end of a verification clears the flag, or there was none -/
@@ -114,8 +119,8 @@ theorem handleVerificationDone_dv (m : M) : DV (handleVerificationDone m).1 := b
   rw [handleVerificationDone_eq]
   dsimp only
   split
-  · simp only [onSt_fst]; exact DV.of_false (by simp)
-  · next hd => exact DV.of_false (by simpa using hd)
+  · simp only [onSt_fst]; exact DV.of_false (stop_doVerify_false _ _ rfl)
+  · next hd => exact DV.of_false (hadCheck_doVerify_false _ (by simpa using hd))
 
 theorem pwdFinish_dv (m : M) (h : DV m.1) : DV (pwdFinish m).1 := by
   unfold pwdFinish
@@ -134,6 +139,8 @@ theorem handlePieceWriteDone_dv (m : M) (w : WriteJob) (e : Bool) (h : DV m.1) :
   have h0 : DV (pwdReset m w).1 := by dv_frame h
   split
   · dv_frame h0
+  split
+  · exact h0
   · split
     · simp only [onSt_fst]; exact stop_dv _ _ h0
     · have h1 : DV (pwdDone (pwdReset m w) w).1 := by dv_frame h0
@@ -151,6 +158,7 @@ theorem writerRun_dv (m : M) (w : WriteJob) (h : DV m.1) : DV (writerRun m w).1 
   all_goals first
     | exact handlePieceWriteDone_dv _ _ _ h
     | exact handlePieceWriteDone_dv _ _ _ (by dv_frame h)
+    | (dv_frame h)
 
 /-- `startCore` on a torrent without a bitfield starts the allocator, the verifier or the metadata download. -/
 theorem startCore_dv (m : M) (h : m.1.doVerify = true → m.1.bf = none) : DV (startCore m).1 := by
@@ -258,6 +266,7 @@ theorem runWorkers_dv (fuel : Nat) (m : M) (h : DV m.1) : DV (runWorkers fuel m)
       | exact ih _ (handleStopped_dv _)
       | exact ih _ (allocatorRun_dv _ h)
       | exact ih _ (handleVerificationDone_dv _)
+      | exact ih _ (handlePieceWriteDone_dv _ _ _ h)
       | exact ih _ (writerRun_dv _ _ h)
 
 theorem deliverParked_dv (m : M) (p : Parked) (h : DV m.1) : DV (deliverParked m p).1.1 := by
@@ -268,7 +277,8 @@ theorem deliverParked_dv (m : M) (p : Parked) (h : DV m.1) : DV (deliverParked m
     | exact runWorkers_dv _ _ (by dv_frame h)
 
 /-- The stop command withdraws the verification request (fix C04-F6). -/
-theorem stopCmd_doVerify (s : St) : (({ s with doVerify := false }).stop false).doVerify = false := by simp
+theorem stopCmd_doVerify (s : St) : (({ s with doVerify := false }).stop false).doVerify = false :=
+  stop_doVerify_false _ _ rfl
 
 theorem stopCmd_dv (s : St) : DV (({ s with doVerify := false }).stop false) := DV.of_false (stopCmd_doVerify s)
 
